@@ -48,7 +48,7 @@ func verifFullTable() FunctionTable {
 var verifSpecArity = map[string][]int{
 	"empty": {0}, "exists": {0, 1}, "all": {1}, "allTrue": {0}, "anyTrue": {0}, "allFalse": {0}, "anyFalse": {0},
 	"subsetOf": {1}, "supersetOf": {1}, "count": {0}, "distinct": {0}, "isDistinct": {0},
-	"where": {1}, "select": {1}, "repeat": {1}, "ofType": {1},
+	"where": {1}, "select": {1}, "repeat": {1}, "ofType": {1}, "is": {1}, "as": {1},
 	"single": {0}, "first": {0}, "last": {0}, "tail": {0}, "skip": {1}, "take": {1}, "intersect": {1}, "exclude": {1},
 	"union": {1}, "combine": {1},
 	"iif": {2, 3}, "toBoolean": {0}, "convertsToBoolean": {0}, "toInteger": {0}, "convertsToInteger": {0}, "toDate": {0}, "convertsToDate": {0},
@@ -64,6 +64,7 @@ var verifSpecArity = map[string][]int{
 // names the specification lists but the implementation documents as not implemented
 var verifUnimplemented = map[string]bool{
 	"subsetOf": true, "supersetOf": true, "repeat": true, "ofType": true, "single": true, "union": true, "combine": true, "trace": true,
+	"is": true, "as": true, // the function forms of the type operators (section 6.3)
 }
 
 // verifReceiver draws a non-empty singleton receiver the named function accepts, and well-typed arguments.
